@@ -33,8 +33,7 @@ MATCHERS = {
                                     and _lone_cr(v["case"]["inp"]["ftext"]),
 }
 
-# how many spellings a tree of a family gets (0 = all that apply); (quick, thorough)
-PER_TREE = {"small": (0, 0), "cond": (0, 0), "mid": (1, 4), "let": (1, 4), "big": (0, 2)}
+PARALLEL = max(1, int(os.environ.get("VERIF_PARALLEL", "16") or 16))   # processes / JVMs at a time
 N_HYP = {"quick": 750, "thorough": 12000}
 N_RAND = {"quick": 250, "thorough": 4000}
 
@@ -49,17 +48,7 @@ def _space(ctx, cfg=None):
 
 def _items(ctx, space):
   """Pair every (tree, spelling) TLC enumerated with a fragment TLC enumerated (both lists are covered)."""
-  col = 0 if ctx.quick else 1
-  pairs = []
-  turn = 0
-  for it in space["items"]:
-    sps = it["sp"]
-    k = PER_TREE[it["fam"]][col]
-    if k and k < len(sps):
-      sps = [sps[(turn + j * 5) % len(sps)] for j in range(k)]
-      sps = list(dict.fromkeys(sps))
-      turn += 1
-    pairs.extend((it["t"], s) for s in sps)
+  pairs = [(it["t"], sp) for it in space["items"] for sp in it["sp"]]
   frags = space["frags"]
   n = max(len(pairs), len(frags))
   items = []
@@ -98,14 +87,16 @@ def _what(clause, case):
     x, out["x_ok"], out["x_exc"], out["add_ok"], out["fix_ok"], json.dumps(snaps)[:400], out["elsewhere"])
 
 
-def _split(failures):
+def _split(failures, doc=None):
+  """doc: the document description; kept with a violating case so that a replay needs no design-model run"""
   viol = []
   for f in failures:
     for c in f["c"]:
       if c.startswith("SPEC."):
         raise tlc.MachineryError("%s: the specification / renderer disagrees with Python on %s"
                                  % (c, _what(c, f["case"])))
-      viol.append({"clause": c, "what": _what(c, f["case"]), "case": f["case"]})
+      case = dict(f["case"], doc=doc) if doc else f["case"]
+      viol.append({"clause": c, "what": _what(c, case), "case": case})
   return viol
 
 
@@ -156,7 +147,7 @@ def run(ctx):
   ctx.log("TLC enumerated %d trees -> %d (tree, spelling) pairs and %d fragments (%d distinct states) in %.1fs"
           % (len(space["items"]), len(pairs), len(frags), model["distinct"], model["wall"]))
   extra = {"doc": doc}
-  files = fnspec.run_cases("fn_formulatext.py", items, ctx.workdir, extra=extra, nshards=8 if ctx.quick else 32)
+  files = fnspec.run_cases("fn_formulatext.py", items, ctx.workdir, extra=extra, nshards=min(PARALLEL, 8 if ctx.quick else 16))
   # C->S: Hypothesis text for X, deeper random trees for F
   small = [p for p in pairs if len(json.dumps(p[0])) < 120][:40]
   per = 250
@@ -164,13 +155,13 @@ def run(ctx):
           for k in range(N_HYP[ctx.tier] // per)]
   more += [{"rand": ctx.seed * 7919 + 17 * k + 1, "n": per} for k in range(N_RAND[ctx.tier] // per)]
   rfiles = fnspec.run_cases("fn_formulatext.py", more, ctx.workdir, extra=extra, tag="more",
-                            nshards=2 if ctx.quick else 16)
-  failures, n, wall = fnspec.judge("Trace_FormulaText", files + rfiles, ctx.workdir)
+                            nshards=min(PARALLEL, 2 if ctx.quick else 16))
+  failures, n, wall = fnspec.judge("Trace_FormulaText", files + rfiles, ctx.workdir, parallel=PARALLEL)
   ctx.log("TLC judged %d recorded runs in %.1fs" % (n, wall))
 
   _selftest(ctx, files[0])
 
-  viol = _split(failures)
+  viol = _split(failures, json.load(open(doc)))
   stats = {"enumerated_cases": 0, "hypothesis_texts": 0, "random_trees": 0, "f_judged_rows": 0, "f_all_rows_undefined": 0,
            "f_error_values": 0, "dollar_in_string": 0, "x_accepted": 0, "x_rejected_document_unchanged": 0,
            "x_error_classes": {}, "x_rejection_classes": {}, "x_no_error_cells": 0, "timeouts": 0,
@@ -209,12 +200,11 @@ def run(ctx):
     "states": model["distinct"] + n, "transitions": model["generated"] + n,
     "traces_validated_against_impl": n,
     "evaluations": n, "distinct_nontrivial": nontrivial,
-    "rule": "TLC enumerates every formula tree within the bound of %s with the spellings that apply (families small/cond: "
-            "all spellings, mid/let/big: %s in turn) and the grammar of broken fragments (kind x position x line-break "
+    "rule": "TLC enumerates every formula tree within the bound of %s with spellings that apply (families small/cond: "
+            "all of them, mid/let/big: PerMid/PerLet/PerBig of them in turn) and the grammar of broken fragments (kind x position x line-break "
             "convention); each engine run sets one spelling as F and one fragment as X of the same document; %d further "
             "X texts come from Hypothesis and %d deeper random trees (seed %d); non-trivial = F's meaning defined in some "
-            "row AND X's text was rejected or left error cells" % (cfg, {k: v[0 if ctx.quick else 1] for k, v in PER_TREE.items()},
-                                                              N_HYP[ctx.tier], N_RAND[ctx.tier], ctx.seed),
+            "row AND X's text was rejected or left error cells" % (cfg, N_HYP[ctx.tier], N_RAND[ctx.tier], ctx.seed),
     "samples": samples,
     "exhaustive": True,
     "assumptions": ["TLC", "Python's own exec of the rec.-spelling as the ground truth the property names "
@@ -229,7 +219,12 @@ def run(ctx):
 
 
 def replay(ctx, data):
-  _space_, _model, doc, _cfg = _space(ctx, "MC_FormulaText_quick.cfg")
-  files = fnspec.run_cases("fn_formulatext.py", [data["case"]["inp"]], ctx.workdir, extra={"doc": doc})
+  case = data["case"]
+  if case.get("doc"):
+    doc = os.path.join(ctx.workdir, "doc.json")
+    json.dump(case["doc"], open(doc, "w"))
+  else:
+    _space_, _model, doc, _cfg = _space(ctx, "MC_FormulaText_quick.cfg")
+  files = fnspec.run_cases("fn_formulatext.py", [case["inp"]], ctx.workdir, extra={"doc": doc})
   failures, _n, _ = fnspec.judge("Trace_FormulaText", files, ctx.workdir)
-  return {"violations": _split(failures)}
+  return {"violations": _split(failures, json.load(open(doc)))}
